@@ -1081,7 +1081,7 @@ Proof.
            rewrite skipn_length, firstn_length. cbn [length] in *. lia.
     + intros H; inversion H; subst. exists s1. cbn [set_buf b_buf b_src]. split; [exact Hs|].
       change (x :: firstn n' buf) with (firstn (S n') (x :: buf)).
-      rewrite skipn_length, firstn_length. rewrite B in Hk. cbn [length] in *. lia.
+      rewrite skipn_length, firstn_length. rewrite ?B. cbn [length] in *. lia.
 Qed.
 
 (* reading exactly up to the boundary leaves the buffer empty *)
@@ -1110,7 +1110,7 @@ Proof.
   destruct (sni_route_bound _ _ _ H) as [rl [_ [H10 _]]].
   assert (B0 : bnd (new_reader 4096 (s1 ++ s2)) s2 (N.to_nat n)).
   { exists s1. cbn [new_reader b_src b_buf length]. split; [reflexivity | lia]. }
-  assert (B1 : bnd b1 s2 (N.to_nat n)) by (eapply peek_bnd; [exact B0 | lia | exact Hp]).
+  assert (B1 : bnd b1 s2 (N.to_nat n)) by (refine (peek_bnd _ 9%nat s2 (N.to_nat n) _ _ _ B0 _ Hp); lia).
   unfold read_full in Hrf.
   destruct (read_full_loop (S (N.to_nat n)) b1 (N.to_nat n) []) as [[[d e] b2]|] eqn:L; [|discriminate].
   inversion Hrf; subst d e b2.
